@@ -5,7 +5,15 @@ From CB Require Import Contract.CcCodec.
 Import ListNotations.
 Local Open Scope N_scope.
 
-Arguments N.add N.sub N.mul N.eqb N.ltb N.leb : simpl never.
+Arguments N.add : simpl never.
+Arguments N.sub : simpl never.
+Arguments N.mul : simpl never.
+Arguments N.eqb : simpl never.
+Arguments N.ltb : simpl never.
+Arguments N.leb : simpl never.
+Arguments N.pow : simpl never.
+Arguments N.div : simpl never.
+Arguments N.modulo : simpl never.
 
 (** ** unsigned integers *)
 Lemma le_take_bytes : forall k n rest, n < 256 ^ N.of_nat k ->
@@ -35,9 +43,9 @@ Proof.
     rewrite Nat2N.inj_succ, N.pow_succ_r'.
     cbn [le_bytes app].
     assert (E1 : (b + 256 * v') mod 256 = b).
-    { rewrite N.add_comm, N.mul_comm, N.mod_add by lia. apply N.mod_small; lia. }
+    { replace (b + 256 * v') with (b + v' * 256) by lia. rewrite N.mod_add by lia. apply N.mod_small; lia. }
     assert (E2 : (b + 256 * v') / 256 = v').
-    { rewrite N.add_comm, N.mul_comm, N.div_add_l by lia. rewrite (N.div_small b 256) by lia. lia. }
+    { replace (b + 256 * v') with (v' * 256 + b) by lia. rewrite N.div_add_l by lia. rewrite (N.div_small b 256) by lia. lia. }
     rewrite E1, E2. split; [reflexivity | nia].
 Qed.
 
@@ -330,36 +338,38 @@ Section Elems.
   (** *** length-prefixed vectors *)
   Lemma vec_RT : RT c -> NonEmpty c -> forall k rsv, RT (c_vec c k rsv).
   Proof.
-    intros Hrt Hne k rsv xs rest [L W]. cbn. rewrite <- app_assoc.
+    intros Hrt Hne k rsv xs rest [L W]. cbn [dec enc c_vec]. rewrite <- app_assoc.
     rewrite le_take_bytes by exact L.
     apply dec_elems_RT; auto.
     rewrite app_length. pose proof (enc_elems_length_ge Hne xs W). lia.
   Qed.
   Lemma vec_Canon : Canon c -> forall k rsv, Canon (c_vec c k rsv).
   Proof.
-    intros Hc k rsv bs xs rest H. cbn in H.
+    intros Hc k rsv bs xs rest H. cbn [dec c_vec] in H.
     destruct (le_take k bs) as [[n r]|] eqn:Hl; [|discriminate].
     destruct (le_take_canon _ _ _ _ Hl) as [E Hn].
     destruct (dec_elems_Canon Hc _ _ _ _ _ H) as [E2 [W L]]. subst.
-    cbn. rewrite <- app_assoc. repeat split; auto.
+    cbn [enc wf c_vec]. rewrite <- app_assoc. repeat split; auto.
   Qed.
   Lemma vec_NonEmpty : forall k rsv, NonEmpty (c_vec c (S k) rsv).
   Proof. intros k rsv xs _. cbn. discriminate. Qed.
   Lemma vec_Shrinks : Shrinks c -> forall k rsv, Shrinks (c_vec c k rsv).
   Proof.
-    intros Hc k rsv bs xs rest H. cbn in H.
+    intros Hc k rsv bs xs rest H. cbn [dec c_vec] in H.
     destruct (le_take k bs) as [[n r]|] eqn:Hl; [|discriminate].
     apply le_take_length in Hl. apply (dec_elems_Shrinks Hc) in H. lia.
   Qed.
   (** the reservation is paid for by the length prefix: at most [K] slots per vector *)
-  Lemma vec_AllocOK : forall K, AllocOK K c -> forall k rsv, (forall n, rsv n <= K) ->
+  Lemma vec_AllocOK : forall K, AllocOK K c -> forall k rsv,
+    (forall n, n < 256 ^ N.of_nat (S k) -> rsv n <= K) ->
     AllocOK K (c_vec c (S k) rsv).
   Proof.
     intros K Hc k rsv Hr bs. cbn [pre dec c_vec].
     destruct (le_take (S k) bs) as [[n r]|] eqn:Hl; [|split; [lia | discriminate]].
+    pose proof (proj2 (le_take_canon _ _ _ _ Hl)) as Hn.
     apply le_take_length in Hl. rewrite Hl.
     destruct (pre_elems_bound K Hc (S (length r)) n r) as [B1 B2].
-    specialize (Hr n). rewrite Nat2N.inj_add, Nat2N.inj_succ.
+    specialize (Hr n Hn). rewrite Nat2N.inj_add, Nat2N.inj_succ.
     split; [lia|]. intros xs rest H. specialize (B2 _ _ H). lia.
   Qed.
   (** the number of slots reserved before the first element is read *)
